@@ -136,7 +136,7 @@ reg('C02',
     deadline={'quick': 100, 'thorough': 1500},
     level=MC,
     technique='bounded-exhaustive enumeration of (command table, message) pairs executed through SCPI_Input (ASan, tail-poisoned input buffer), compared with a reference interpreter of the header-path and first-match rules',
-    rule={'quick': 'command tables: every ordered pair (90) and triple (720) of a pool of 10 overlapping patterns plus the whole pool in two orders; messages: every sequence of 1..3 units (1..2 for triples) over 26 header spellings (handlers of every second table entry fail with -200) (short/long, letter case, leading colon, optional keyword present/absent, numeric suffix, common, undefined with and without colons) x 2 separator styles; non-trivial = every message (each is compared unit by unit with the reference trace)',
+    rule={'quick': 'command tables: every ordered pair (110) and triple (990) of a pool of 11 overlapping patterns plus the whole pool in two orders; messages: every sequence of 1..3 units (1..2 for triples) over 28 header spellings (handlers of every second table entry fail with -200) (short/long, letter case, leading colon, optional keyword present/absent, numeric suffix, common, undefined with and without colons) x 2 separator styles; non-trivial = every message (each is compared unit by unit with the reference trace)',
           'thorough': 'as quick with 1..4 units (1..3 for triples), additionally in the no-info build'},
     assumptions=['after a common (*) command the next unit uses its header as written, as the statement says',
                  'the -113 text only has to contain the header as written'],
@@ -315,7 +315,7 @@ reg('C01',
     level=MC,
     technique='bounded-exhaustive enumeration of input byte strings x input-buffer sizes x segmentations x residues, executed on the real library under ASan + UBSan with exact-size heap blocks and a tail-poisoned input buffer',
     rule={'quick': 'D1: every byte string of length <= 4 over 28 bytes (one per character class incl. NUL, 0x80, 0xFF) x every input-buffer size 2..len+2 x {whole, every single split point, one byte per call} + zero-length flush x {fresh context, 6 residues}, omnivore handlers applying every SCPI_ParamTo*/Expr*/Result*/ToStr API to every token; D2: "A <p> NL" for every p of length <= 4 over 20 bytes through the omnivore and each of 18 typed readers (two deliveries); D3: every D1 string NUL-terminated to SCPI_Parse; D4: every history of <= 4 messages over 9 steps (undefined headers of length 1..6, SYST:ERR?, *CLS) on one context, info heap sizes 5..12; D5: "A " + every string of length <= 5 over 11 token-forming bytes in exactly fitting buffers; error ring of 2 entries; default and static-heap (9-byte heap) builds; non-trivial = (string, buffer size) case that reached a handler',
-          'thorough': 'strings of length <= 5 (length 5 with four buffer sizes), all four build configurations'},
+          'thorough': 'D1 additionally every string of length 5 (three buffer sizes; whole, one split, one byte per call; fresh context), D2/D5 one byte longer, all four build configurations'},
     assumptions=['bytes are represented by character class (28 representatives), not all 256 values',
                  'memory safety is judged by ASan/UBSan on this x86-64 build; uninitialised reads are not detected (no MSan run)'],
     level_text='Exhaustive over all short streams, all buffer sizes that can make any token end at or beyond the end of the buffer, all single-split segmentations and histories with six kinds of pending input; any sanitizer report, hang or out-of-range buffer position is a violation.',
